@@ -228,6 +228,17 @@ def boundary_rule(repo: Repo) -> RuleRun:
         j.set("cells", {cell})
         res = _run(Evaluator(repo=repo, module=isb.module), isb, [j])
         r.check(res is expect, isb, f"index {idx}: is_boundary={res}", f"Junction.is_boundary = {res} for a junction {'on' if expect else 'off'} the boundary set", isb.node, key=f"is_boundary:{expect}")
+    for label, sets, expect in (("corner of one cell only on the boundary", [{100, 101}, {107}], True), ("two cells, the second one has it on the boundary", [{105}, {100, 101}], True), ("two interior cells", [{105}, {106}], False)):
+        cells = []
+        for bset in sets:
+            c_ = Obj("cell", cls=None)
+            c_.set("boundary", set(bset))
+            cells.append(c_)
+        j = Obj("j", cls=repo.cls("optimize.junction.Junction"))
+        j.set("index", 101)
+        j.set("cells", set(cells))
+        res = _run(Evaluator(repo=repo, module=isb.module), isb, [j])
+        r.check(res is expect, isb, f"{label}: is_boundary={res}", f"Junction.is_boundary = {res} for {label}: a point is on the boundary as soon as ANY of its cells has it on a side without neighbour (re-entrant corners)", isb.node, key=f"is_boundary:{label}")
     # get_common_side / add_neighbour use the same table
     gcs = repo.func("optimize.cell.CellBase.get_common_side")
     for side in hexa.SIDE_PLANE:
@@ -258,10 +269,11 @@ def backport(repo: Repo) -> RuleRun:
         return np_hook()(ev, call, name)
 
     sketch = Obj("sketch")
-    quads = [[0, 1, 4, 3], [1, 2, 5, 4]]
+    # the third face consists only of points that earlier faces already use (closing quad of an O-grid)
+    quads = [[0, 1, 4, 3], [1, 2, 5, 4], [0, 2, 5, 3]]
     sketch.set("indexes", quads)
     sketch.set("positions", [Sym(f"x{i}") for i in range(6)])
-    faces = [Obj(f"face{i}") for i in range(2)]
+    faces = [Obj(f"face{i}") for i in range(3)]
     sketch.set("faces", faces)
     _run(Evaluator(repo=repo, module=fs.module, call_hook=ctor_hook), fs, [Sym("cls"), sketch])
     r.check(made.get("args") == [sketch.get("positions"), quads], fs, "grid built from sketch.positions / sketch.indexes", f"QuadGrid.from_sketch builds the grid from {made.get('args')}", fs.node, key="from_sketch")
